@@ -119,7 +119,7 @@ func TestVerifSys(t *testing.T) {
 }
 
 func sysC01(t *testing.T, prop string) {
-	res := vlib.NewResult(prop, "sys-"+strings.ToLower(prop), "the real broker, server, proxy and client binaries (race-instrumented) on loopback; a SOCKS connection carries self-describing streams in both directions between the application side and the bridge side while process-level faults are injected at lifecycle phases recognised from forwarder/broker-front events: SIGKILL of the proxy carrying the stream, relay TCP cut, SIGSTOP/SIGCONT freeze, SIGTERM; killed proxies are respawned; non-trivial = fault injected while bytes were flowing and the stream continued afterwards, distinct by fault index")
+	res := vlib.NewResult(prop, "sys-"+strings.ToLower(prop), "the real broker, server, proxy and client binaries (race-instrumented) on loopback; a SOCKS connection carries self-describing streams in both directions between the application side and the bridge side while process-level faults are injected at lifecycle phases recognised from forwarder/broker-front events: SIGKILL of the proxy carrying the stream, relay TCP cut, long (45 s) and short (three times 6-9 s, below the staleness limit) SIGSTOP/SIGCONT freezes of proxy and client, SIGTERM, the proxy matched next killed as it connects to the relay; killed proxies are respawned; non-trivial = fault injected while bytes were flowing and the stream continued afterwards, distinct by fault index")
 	defer res.Finish()
 	r := vlib.NewRand(vlib.Seed()).Split("sysc01")
 	shard, _ := vlib.Shard()
@@ -180,12 +180,12 @@ func sysC01(t *testing.T, prop string) {
 		return
 	}
 	res.Obs("stream_established", 1)
-	faults := []string{"sigkill-active-proxy", "relay-tcp-cut", "sigstop-active-proxy", "kill-next-proxy-on-relay-connect"}
+	faults := []string{"short-freeze-client", "sigkill-active-proxy", "relay-tcp-cut", "short-freeze-active-proxy", "sigstop-active-proxy", "kill-next-proxy-on-relay-connect"}
 	if vlib.Thorough() {
 		faults = append(faults, "sigterm-active-proxy", "freeze-next-proxy-on-relay-connect", "kill-next-proxy-on-offer", "relay-tcp-cut", "sigkill-all-proxies", "kill-next-proxy-on-answer", "answer-lost", "sigstop-active-proxy", "answer-delayed", "relay-tcp-cut")
 	}
 	if prop == "C20" {
-		faults = []string{"sigkill-active-proxy", "relay-tcp-cut"}
+		faults = []string{"short-freeze-client", "sigkill-active-proxy", "relay-tcp-cut"}
 	}
 	for fi, f := range faults {
 		if d, e := main.state(); d || e != "" {
@@ -225,6 +225,32 @@ func sysC01(t *testing.T, prop string) {
 		case "relay-tcp-cut":
 			if fc != nil {
 				fc.cut()
+			}
+		case "short-freeze-client", "short-freeze-active-proxy":
+			// a stall shorter than the client's 20 s staleness limit: nobody is replaced,
+			// the same carrier must simply carry on afterwards - every buffer on the way
+			// (data channel send buffers, relay socket, KCP windows) fills up and drains
+			var target *proc
+			if f == "short-freeze-client" {
+				s.mu.Lock()
+				for _, p := range s.procs {
+					if strings.HasPrefix(p.name, "client") && p.alive() {
+						target = p
+					}
+				}
+				s.mu.Unlock()
+			} else {
+				target = ap
+			}
+			if target == nil {
+				res.Obs("fault_skipped_no_active_proxy", 1)
+				break
+			}
+			for cycle := 0; cycle < 3; cycle++ {
+				target.signal(syscall.SIGSTOP)
+				time.Sleep(time.Duration(r.Range(6000, 9000)) * time.Millisecond)
+				target.signal(syscall.SIGCONT)
+				time.Sleep(time.Duration(r.Range(1500, 3000)) * time.Millisecond)
 			}
 		case "kill-next-proxy-on-offer", "kill-next-proxy-on-answer", "answer-lost", "answer-delayed":
 			// faults in the middle of a redial: the carrying proxy is killed, and the
